@@ -3,6 +3,8 @@
 package verifhook
 
 import (
+	"sync"
+
 	"github.com/IBM/sarama"
 	"github.com/linkedin/go-zk"
 
@@ -47,3 +49,140 @@ func NewKafkaZkClient(app *protocol.ApplicationContext, name, configRoot string,
 
 // Start is the module's Start.
 func (c *KafkaZkClient) Start() error { return c.m.Start() }
+
+// FakeOffsetsTopic is a scriptable stand-in for the Kafka client the consumer module reads the offsets topic with.
+// Every consumer the module opens is recorded; the caller feeds them messages.
+type FakeOffsetsTopic struct {
+	PartitionIDs   []int32
+	PartitionsFail bool
+	Oldest, Newest map[int32]int64
+	// FailConsumer: the n-th NewConsumerFromClient call fails (1-based; 0 = none)
+	FailConsumer int
+	// FailConsume: ConsumePartition fails for this partition (-1 = none) on the consumer instance FailConsumeOn (1-based)
+	FailConsume   int32
+	FailConsumeOn int
+	// FailOldest / FailNewest: GetOffset fails for this partition (-1 = none)
+	FailOldest, FailNewest int32
+
+	mu        sync.Mutex
+	consumers int
+	Opened    []*FakePartitionConsumer
+	Closes    int
+}
+
+// FakePartitionConsumer is one ConsumePartition result.
+type FakePartitionConsumer struct {
+	Instance  int // which consumer instance opened it (1 = live, 2 = backfill)
+	Topic     string
+	Partition int32
+	StartFrom int64
+	Msgs      chan *sarama.ConsumerMessage
+	Errs      chan *sarama.ConsumerError
+	mu        sync.Mutex
+	closed    int
+}
+
+func (p *FakePartitionConsumer) AsyncClose() {
+	p.mu.Lock()
+	p.closed++
+	p.mu.Unlock()
+}
+func (p *FakePartitionConsumer) Close() error                             { p.AsyncClose(); return nil }
+func (p *FakePartitionConsumer) Messages() <-chan *sarama.ConsumerMessage { return p.Msgs }
+func (p *FakePartitionConsumer) Errors() <-chan *sarama.ConsumerError     { return p.Errs }
+func (p *FakePartitionConsumer) HighWaterMarkOffset() int64               { return 0 }
+func (p *FakePartitionConsumer) Pause()                                   {}
+func (p *FakePartitionConsumer) Resume()                                  {}
+func (p *FakePartitionConsumer) IsPaused() bool                           { return false }
+
+// Closed reports how often the module closed this consumer.
+func (p *FakePartitionConsumer) Closed() int {
+	p.mu.Lock()
+	defer p.mu.Unlock()
+	return p.closed
+}
+
+type fakeOffsetsClient struct {
+	fakeClient
+	t *FakeOffsetsTopic
+}
+type fakeOffsetsConsumer struct {
+	t        *FakeOffsetsTopic
+	instance int
+}
+
+func (c *fakeOffsetsClient) Partitions(string) ([]int32, error) {
+	if c.t.PartitionsFail {
+		return nil, errFake
+	}
+	return append([]int32{}, c.t.PartitionIDs...), nil
+}
+func (c *fakeOffsetsClient) GetOffset(_ string, partition int32, when int64) (int64, error) {
+	if when == sarama.OffsetOldest {
+		if partition == c.t.FailOldest {
+			return 0, errFake
+		}
+		return c.t.Oldest[partition], nil
+	}
+	if partition == c.t.FailNewest {
+		return 0, errFake
+	}
+	return c.t.Newest[partition], nil
+}
+func (c *fakeOffsetsClient) Close() error {
+	c.t.mu.Lock()
+	c.t.Closes++
+	c.t.mu.Unlock()
+	return nil
+}
+func (c *fakeOffsetsClient) NewConsumerFromClient() (sarama.Consumer, error) {
+	c.t.mu.Lock()
+	defer c.t.mu.Unlock()
+	c.t.consumers++
+	if c.t.consumers == c.t.FailConsumer {
+		return nil, errFake
+	}
+	return &fakeOffsetsConsumer{t: c.t, instance: c.t.consumers}, nil
+}
+
+func (c *fakeOffsetsConsumer) Topics() ([]string, error)          { return nil, errFake }
+func (c *fakeOffsetsConsumer) Partitions(string) ([]int32, error) { return nil, errFake }
+func (c *fakeOffsetsConsumer) ConsumePartition(topic string, partition int32, offset int64) (sarama.PartitionConsumer, error) {
+	c.t.mu.Lock()
+	defer c.t.mu.Unlock()
+	if partition == c.t.FailConsume && c.instance == c.t.FailConsumeOn {
+		return nil, errFake
+	}
+	p := &FakePartitionConsumer{Instance: c.instance, Topic: topic, Partition: partition, StartFrom: offset,
+		Msgs: make(chan *sarama.ConsumerMessage), Errs: make(chan *sarama.ConsumerError)}
+	c.t.Opened = append(c.t.Opened, p)
+	return p, nil
+}
+func (c *fakeOffsetsConsumer) HighWaterMarks() map[string]map[int32]int64 { return nil }
+func (c *fakeOffsetsConsumer) Close() error                               { return nil }
+func (c *fakeOffsetsConsumer) Pause(map[string][]int32)                   {}
+func (c *fakeOffsetsConsumer) Resume(map[string][]int32)                  {}
+func (c *fakeOffsetsConsumer) PauseAll()                                  {}
+func (c *fakeOffsetsConsumer) ResumeAll()                                 {}
+
+// Consumers returns the partition consumers opened so far.
+func (t *FakeOffsetsTopic) Consumers() []*FakePartitionConsumer {
+	t.mu.Lock()
+	defer t.mu.Unlock()
+	return append([]*FakePartitionConsumer{}, t.Opened...)
+}
+
+// ClientCloses reports how often the module closed the client.
+func (t *FakeOffsetsTopic) ClientCloses() int {
+	t.mu.Lock()
+	defer t.mu.Unlock()
+	return t.Closes
+}
+
+// StartKafkaConsumer runs the module's real startKafkaConsumer against the fake offsets topic.
+func (c *KafkaClient) StartKafkaConsumer(t *FakeOffsetsTopic, offsetsTopic string, startLatest, backfillEarliest bool, reportedGroup string) error {
+	return c.m.VerifStartKafkaConsumer(&fakeOffsetsClient{fakeClient: fakeClient{k: &FakeKafka{}}, t: t}, offsetsTopic, startLatest, backfillEarliest, reportedGroup)
+}
+
+// Stop is the module's real Stop.
+func (c *KafkaClient) Stop() error { return c.m.VerifStop() }
